@@ -196,7 +196,7 @@ func Narrow(p *core.Prog, r *core.Report) {
 					continue
 				}
 				h := core.StaticCallee(vc)
-				if h == nil || h.Signature.Recv() == nil || core.NamedOf(h.Signature.Recv().Type()) == nil || core.NamedOf(h.Signature.Recv().Type()).Obj().Name() != "Result" {
+				if h == nil || h.Signature.Recv() == nil || core.NamedOf(h.Signature.Recv().Type()) == nil || core.KnownTypeName(core.NamedOf(h.Signature.Recv().Type())) != "Result" {
 					continue
 				}
 				// which way does the predicate answer for a result without errors? read off its body: validity is
